@@ -83,11 +83,15 @@ class Stats:
     def probe(self, name, n=1):
         self.probes[name] = self.probes.get(name, 0) + n
 
+    CAP = 2_000_000      # distinct-measure sets are capped (memory); the evidence says when the cap was reached
+
     def sched(self, *parts):
-        self.schedules.add(h64(*parts))
+        if len(self.schedules) < self.CAP:
+            self.schedules.add(h64(*parts))
 
     def state(self, *parts):
-        self.states.add(h64(*parts))
+        if len(self.states) < self.CAP:
+            self.states.add(h64(*parts))
 
     def merge(self, o):
         self.cycles += o.cycles
@@ -95,8 +99,10 @@ class Stats:
             self.faults[k] = self.faults.get(k, 0) + v
         for k, v in o.probes.items():
             self.probes[k] = self.probes.get(k, 0) + v
-        self.schedules |= o.schedules
-        self.states |= o.states
+        if len(self.schedules) < self.CAP:
+            self.schedules |= o.schedules
+        if len(self.states) < self.CAP:
+            self.states |= o.states
 
 
 class Violation(Exception):
@@ -441,6 +447,7 @@ def campaign(prop, tier, verif_seed, nruns=None, jobs=None, out=sys.stdout):
             'probe_counts': dict(sorted(agg.probes.items())),
             'distinct_schedules': len(agg.schedules),
             'distinct_states': len(agg.states),
+            'distinct_measures_capped_at': Stats.CAP if (len(agg.schedules) >= Stats.CAP or len(agg.states) >= Stats.CAP) else None,
             'real_components': getattr(mod, 'REAL', []),
             'stub_components': getattr(mod, 'STUB', []),
             'known_findings_confirmed': kf_confirmed,
